@@ -117,6 +117,8 @@ def kernel(check, tier):
                                  [z3.fpBVToFP(db, F32) == S.duration, fin(S.duration), neg], S.inputs, timeout=to,
                                  words='t >= duration()  =>  not NotStarted; if still Active the time since the delay is within 2 ulp(duration()) of cycle*(repeats+1) (the resolution of f32 time; bound enforced for the known rounding corner)'))
         o.S = S
+    import kernel_timescale as KT
+    KT.past_end_obligations(check, S, 'C07', bound, to)
     return S
 
 
